@@ -42,7 +42,17 @@ def main():
             if subs and not any(s in r["file"] for s in subs):
                 continue
             recs.append(r)
-    print(f"{len(recs)} unreported weakening mutants to triage")
+    done = set()
+    tp = os.path.join(VERIF, ".cache", "mutants", "triage.out")
+    if os.path.exists(tp):
+        for l in open(tp):
+            try:
+                r = json.loads(l)
+                done.add((r["file"], r["line"], r["new"]))
+            except Exception:
+                pass
+    recs = [r for r in recs if (r["file"], r["line"], r["new"]) not in done]
+    print(f"{len(recs)} unreported weakening mutants to triage ({len(done)} triaged earlier)")
     sh(f"rm -rf {REPO} && mkdir -p {REPO} && git -C /repo archive HEAD | tar -x -C {REPO}")
     out = open(os.path.join(VERIF, ".cache", "mutants", "triage.out"), "a")
     props = [f"C{i:02d}" for i in range(1, 21)]
